@@ -3,34 +3,19 @@ package main
 import (
 	"fmt"
 
+	bcrpb "github.com/google/fhir/go/proto/google/fhir/proto/r4/core/resources/bundle_and_contained_resource_go_proto"
 	"github.com/verily-src/fhirpath-go/fhirpath/patch"
+	"github.com/verily-src/fhirpath-go/fhirpath/verifh/core"
 	"github.com/verily-src/fhirpath-go/fhirpath/verifh/lib"
 	"github.com/verily-src/fhirpath-go/internal/fhir"
-	"google.golang.org/protobuf/proto"
 )
 
 func main() {
-	try := func(name string, res fhir.Resource, f func() error) {
-		before := proto.Clone(res)
-		err := f()
-		fmt.Printf("%-60s err=%v changed=%v\n", name, err, !proto.Equal(before, res))
+	b := &bcrpb.Bundle{Entry: []*bcrpb.Bundle_Entry{{Resource: &bcrpb.ContainedResource{}}, {}}}
+	for _, src := range []string{"Bundle.entry.resource", "Bundle.entry.resource.id", "Bundle.descendants()", "Bundle.entry.resource is Patient", "Bundle.entry.children()"} {
+		r := lib.Run(src, []fhir.Resource{b}, nil)
+		fmt.Println(src, "=>", core.Short(r.String(), 200))
 	}
-	p := lib.PatientWithContained()
-	try("Delete Patient.contained[0].id", p, func() error { return patch.Delete(p, "Patient.contained[0].id") })
-	p = lib.PatientWithContained()
-	try("Replace Patient.contained[0].status", p, func() error { return patch.Replace(p, "Patient.contained[0].status", fhir.Code("final")) })
-	p = lib.PatientWithContained()
-	try("Add Patient.contained[0] note", p, func() error {
-		return patch.Add(p, "Patient.contained[0]", "language", fhir.Code("en"), &patch.Options{})
-	})
-	p = lib.PatientWithContained()
-	try("Delete Patient.contained[0]", p, func() error { return patch.Delete(p, "Patient.contained[0]") })
-	b := lib.Bundle()
-	try("Delete Bundle.entry[0].resource.id", b, func() error { return patch.Delete(b, "Bundle.entry[0].resource.id") })
-	b = lib.Bundle()
-	try("Replace Bundle.entry[0].resource.active", b, func() error { return patch.Replace(b, "Bundle.entry[0].resource.active", fhir.Boolean(false)) })
-	b = lib.Bundle()
-	try("Delete Bundle.entry[0].resource", b, func() error { return patch.Delete(b, "Bundle.entry[0].resource") })
-	b = lib.Bundle()
-	try("Delete Bundle.entry[0].resource.name[0]", b, func() error { return patch.Delete(b, "Bundle.entry[0].resource.name[0]") })
+	pi := core.Try(func() { fmt.Println(patch.Delete(b, "Bundle.entry[0].resource.id")) })
+	fmt.Println("patch:", pi)
 }
